@@ -1,3 +1,5 @@
+//go:build !skip_c10
+
 package main
 
 // C10 — FileStorage on a real directory against the FileSys models.
@@ -61,7 +63,7 @@ func c10cls(err error) int {
 	return 2
 }
 
-func splitKey(k string) []string {
+func c10SplitKey(k string) []string {
 	if k == "" {
 		return nil
 	}
@@ -128,7 +130,7 @@ func c10WireSeq(ops []c10op, obs []c10obs) string {
 	e := &emit.Enc{}
 	e.Int(0).Len(len(ops))
 	for _, o := range ops {
-		e.Int(c10tags[o.Op]).StrList(splitKey(o.Key))
+		e.Int(c10tags[o.Op]).StrList(c10SplitKey(o.Key))
 		switch o.Op {
 		case "store":
 			e.Bytes([]byte(o.Val))
@@ -140,7 +142,7 @@ func c10WireSeq(ops []c10op, obs []c10obs) string {
 	for _, r := range obs {
 		e.Int(r.Cls).Bytes([]byte(r.Val)).Bool(r.Flag).Len(len(r.Keys))
 		for _, k := range r.Keys {
-			e.StrList(splitKey(k))
+			e.StrList(c10SplitKey(k))
 		}
 		e.Z(r.Size)
 	}
@@ -164,7 +166,7 @@ func c10RandKey(r *rand.Rand, pool []string, mode byte) string {
 		return fresh()
 	}
 	k := pool[r.Intn(len(pool))]
-	c := splitKey(k)
+	c := c10SplitKey(k)
 	x := r.Intn(100)
 	switch mode {
 	case 'x':
@@ -251,7 +253,7 @@ func c10Features(ops []c10op, obs []c10obs) (class string, nontrivial bool, feat
 	underFile, delDir, listMulti, overwrite, missing, kinds := false, false, false, false, false, map[string]bool{}
 	for i, o := range ops {
 		kinds[o.Op] = true
-		c := splitKey(o.Key)
+		c := c10SplitKey(o.Key)
 		for j := 1; j < len(c); j++ {
 			if files[strings.Join(c[:j], "/")] {
 				underFile = true
@@ -381,10 +383,10 @@ func c10Child(dir, spec string) error {
 type c10sev struct{ Code, Class, Arg int64 }
 
 var (
-	reStrace     = regexp.MustCompile(`^\d+\s+(\w+)\((.*)\)\s+= (-?\d+)`)
-	reUnfinished = regexp.MustCompile(`^(\d+)\s+(\w+)\((.*) <unfinished \.\.\.>$`)
-	reResumed    = regexp.MustCompile(`^(\d+)\s+<\.\.\. (\w+) resumed>(.*)$`)
-	reQuoted     = regexp.MustCompile(`"((?:[^"\\]|\\.)*)"`)
+	c10reStrace     = regexp.MustCompile(`^\d+\s+(\w+)\((.*)\)\s+= (-?\d+)`)
+	c10reUnfinished = regexp.MustCompile(`^(\d+)\s+(\w+)\((.*) <unfinished \.\.\.>$`)
+	c10reResumed    = regexp.MustCompile(`^(\d+)\s+<\.\.\. (\w+) resumed>(.*)$`)
+	c10reQuoted     = regexp.MustCompile(`"((?:[^"\\]|\\.)*)"`)
 )
 
 // c10Strace runs the harness as a child under strace and projects the trace.
@@ -415,11 +417,11 @@ func c10Strace(tmproot, spec string, prepare func(dir string)) ([]c10sev, string
 	pending := map[string]string{}
 	var lines []string
 	for _, ln := range strings.Split(string(raw), "\n") {
-		if m := reUnfinished.FindStringSubmatch(ln); m != nil {
+		if m := c10reUnfinished.FindStringSubmatch(ln); m != nil {
 			pending[m[1]] = m[1] + " " + m[2] + "(" + m[3]
 			continue
 		}
-		if m := reResumed.FindStringSubmatch(ln); m != nil {
+		if m := c10reResumed.FindStringSubmatch(ln); m != nil {
 			if p, ok := pending[m[1]]; ok {
 				delete(pending, m[1])
 				lines = append(lines, p+m[3])
@@ -444,14 +446,14 @@ func c10Strace(tmproot, spec string, prepare func(dir string)) ([]c10sev, string
 	var evs []c10sev
 	var kept []string
 	for _, ln := range lines {
-		m := reStrace.FindStringSubmatch(ln)
+		m := c10reStrace.FindStringSubmatch(ln)
 		if m == nil {
 			continue
 		}
 		name, args, ret := m[1], m[2], m[3]
 		rv, _ := strconv.ParseInt(ret, 10, 64)
 		var paths []string
-		for _, q := range reQuoted.FindAllStringSubmatch(args, -1) {
+		for _, q := range c10reQuoted.FindAllStringSubmatch(args, -1) {
 			if strings.HasPrefix(q[1], store) {
 				paths = append(paths, q[1])
 			}
